@@ -26,6 +26,8 @@ func main() {
 		loops(os.Args[2:])
 	case "scan":
 		scan(os.Args[2:])
+	case "replay":
+		os.Exit(replay(os.Args[2:]))
 	default:
 		fmt.Fprintln(os.Stderr, "unknown command")
 		os.Exit(2)
@@ -129,4 +131,19 @@ func scan(args []string) {
 	for _, s := range g.ScanGlobalWrites() {
 		fmt.Printf("%-70s %s %s\n", s.ID(), s.Pos, s.Note)
 	}
+}
+
+// replay: re-decide the obligation named in a replay file on the current tree
+func replay(args []string) int {
+	fs := flag.NewFlagSet("replay", flag.ExitOnError)
+	repo := fs.String("repo", "/repo", "repository root")
+	verif := fs.String("verif", "/verif", "verif directory")
+	prop := fs.String("prop", "", "property id")
+	file := fs.String("file", "", "replay file written with a VIOLATION line")
+	fs.Parse(args)
+	if r := os.Getenv("VERIF_REPO"); r != "" {
+		*repo = r
+	}
+	os.Setenv("GOVC_NOEVIDENCE", "1")
+	return vc.RunReplay(vc.CheckConfig{Property: *prop, Tier: "quick", Repo: *repo, VerifDir: *verif, Timeout: 20 * time.Second, Out: os.Stdout}, *file)
 }
